@@ -23,6 +23,10 @@ type replayDoc struct {
 	FaultPlan []string        `json:"fault_plan,omitempty"` // C03: "<index>:<site>"
 	InnerMode string          `json:"inner_mode,omitempty"`
 	Stray     int64           `json:"stray,omitempty"`
+	// real-envelope artefacts (loop.go)
+	RealPathData []byte `json:"real_path_data,omitempty"` // one packet through the real receive path
+	Loop         string `json:"loop,omitempty"`           // a step of the real block history (the history is re-run)
+	Restart      string `json:"restart,omitempty"`        // a stage of the chain-restart check (re-run)
 }
 
 type replayExpect struct {
@@ -45,6 +49,9 @@ func runReplay(path string) int {
 	if err := json.Unmarshal(v.Replay, &doc); err != nil {
 		fmt.Println("HARNESS-ERROR bad replay body:", err)
 		return 2
+	}
+	if doc.RealPathData != nil || doc.Loop != "" || doc.Restart != "" {
+		return replayReal(v, doc, path)
 	}
 	w, err := NewWorld()
 	if err != nil {
@@ -247,4 +254,67 @@ func replaySpecial(w *World, v Violation, doc replayDoc, path string) (int, bool
 		return 0, true
 	}
 	return 0, false
+}
+
+
+// replayReal re-executes the real-envelope artefacts: one packet through the real receive path, or the whole real block
+// history / chain-restart check (they are deterministic linear histories; the step named in the file is looked up in
+// the re-run's own findings).
+func replayReal(v Violation, doc replayDoc, path string) int {
+	fmt.Printf("replaying %s (%s): %s\n", v.Property, v.Kind, trunc(v.What, 600))
+	switch {
+	case doc.RealPathData != nil:
+		lw, err := NewLoopWorld()
+		if err != nil {
+			fmt.Println("HARNESS-ERROR fixture:", err)
+			return 2
+		}
+		o, err := lw.RunStep(LoopStep{Label: "replay", Raw: doc.RealPathData})
+		if err != nil {
+			fmt.Println("HARNESS-ERROR", err)
+			return 2
+		}
+		fmt.Printf("  MsgRecvPacket tx code=%d log=%q\n  ack (real)     = %s\n  ack (emulated) = %s panic=%q\n  mismatches: %v\n", o.RecvCode, trunc(o.RecvLog, 300), o.Ack, o.EmuAck, o.EmuPanic, o.Mismatch)
+		if o.RecvCode != 0 || len(o.Ack) == 0 {
+			fmt.Printf("VIOLATION property=%s replay=%s (the receive transaction failed or no acknowledgement was written)\n", v.Property, path)
+			return 1
+		}
+		fmt.Println("replay finished; the transaction succeeded and an acknowledgement was written")
+		return 0
+	default:
+		rep := NewReport(v.Property, "quick", "replay")
+		var err error
+		if doc.Restart != "" {
+			err = loopRestartCheck(rep, false)
+		} else if v.Property == "C19" {
+			a, e1 := loopRun(nil, false)
+			b, e2 := loopRun(nil, false)
+			if e1 != nil || e2 != nil {
+				err = fmt.Errorf("%v %v", e1, e2)
+			}
+			for i := range a {
+				if i < len(b) && a[i] != b[i] {
+					rep.Violate(Violation{Kind: "real-block-history-differs", Sig: a[i], What: "line " + fmt.Sprint(i) + ":\n  " + a[i] + "\n  " + b[i], Replay: mustJSON("loop")})
+					break
+				}
+			}
+		} else {
+			_, err = loopRun(rep, false)
+		}
+		if err != nil {
+			fmt.Println("HARNESS-ERROR", err)
+			return 2
+		}
+		code := 0
+		for _, x := range rep.Violations {
+			fmt.Printf("  re-run finding: %s :: %s\n", x.Kind, trunc(x.What, 500))
+			code = 1
+		}
+		if code == 1 {
+			fmt.Printf("VIOLATION property=%s replay=%s (the re-run of the real block history reports the findings above)\n", v.Property, path)
+		} else {
+			fmt.Println("replay finished; the re-run of the real block history reports nothing")
+		}
+		return code
+	}
 }
